@@ -484,7 +484,8 @@ REPARSE_LAYOUTS = {  # exon layouts relative to the transcript start (lengths, g
     "e2": [(0, 4), (7, 11)],
     "e3adj": [(0, 3), (3, 6), (9, 12)],
 }
-_BT = [(None, None), ("protein_coding", "protein_coding"), ("protein_coding", None), ("ncRNA", "ncRNA"), ("protein_coding", "ncRNA"), (None, "protein_coding")]
+_BT = [(None, None), ("protein_coding", "protein_coding"), ("protein_coding", None), ("ncRNA", "ncRNA"), ("protein_coding", "ncRNA"), (None, "protein_coding"),
+       ("pseudogene", "pseudogene")]  # a CODING pseudogene transcript is what BioCantor's own GenBank parser produces for /pseudo CDS features
 
 
 def _tmp_path(tag):
@@ -555,7 +556,7 @@ def _reparse_model(strand, layout, s0, a, b, f0, ids, bt, iso, fasta, fm=0):
                 frames[k] = frames[k].shift(1)
         tkw.update(protein_id="pid" if ids == 1 else None, product="prod" if ids == 1 else None)
     t1 = TranscriptInterval([e[0] for e in exons], [e[1] for e in exons], strand, [c[0] for c in cds] if cds else None, [c[1] for c in cds] if cds else None,
-                            frames if cds else None, sequence_name="chr1", transcript_type=tt, qualifiers={"note": ["n1", "a;b=c d"], "product_source": ["ps"]},
+                            frames if cds else None, sequence_name="chr1", transcript_type=tt, qualifiers={"note": ["n1", "a;b=c d"], "product_source": ["ps"], "tver": ["1.10", "007"]},
                             parent_or_seq_chunk_parent=par, **tkw)
     txs = [t1]
     if iso == 1:  # non-coding isoform on the first exon
@@ -564,7 +565,7 @@ def _reparse_model(strand, layout, s0, a, b, f0, ids, bt, iso, fasta, fm=0):
     elif iso == 2:  # coding isoform spanning the exons' hull, CDS = whole transcript, frame 0
         txs.append(TranscriptInterval([exons[0][0]], [exons[-1][1]], strand, [exons[0][0]], [exons[-1][1]], [CDSFrame.ZERO], sequence_name="chr1",
                                       transcript_type=tt, transcript_id=tid2, parent_or_seq_chunk_parent=par))
-    gene = GeneInterval(txs, sequence_name="chr1", gene_type=gt, qualifiers={"gq": ["v%1"], "idx": ["7"]}, parent_or_seq_chunk_parent=par, **gkw)
+    gene = GeneInterval(txs, sequence_name="chr1", gene_type=gt, qualifiers={"gq": ["v%1"], "idx": ["7"], "db_version": ["1.10"], "build": ["007", "1e3", "+5"]}, parent_or_seq_chunk_parent=par, **gkw)
     coll = AnnotationCollection(genes=[gene], sequence_name="chr1", parent_or_seq_chunk_parent=par)
     return coll, gene, txs
 
